@@ -5,6 +5,7 @@ import (
 	"errors"
 	"fmt"
 	"strings"
+	"sync"
 	"sync/atomic"
 	"time"
 
@@ -155,6 +156,46 @@ func execChannel(t *trace, script []string) {
 			default:
 				r = canonErr(out.err)
 			}
+		case "pget":
+			// n values are queued, then four goroutines Get concurrently until n values have been taken: whatever goroutine takes
+			// which value, the Channel's buffer must hold them in source order (taking a value and recording it is one step)
+			if pendCh != nil || srcClosed || len(f) != 2 {
+				break
+			}
+			n := atoi(f[1])
+			if len(src)+n > cap(src) {
+				break
+			}
+			for i := 0; i < n; i++ {
+				src <- 7000 + i
+			}
+			var left atomic.Int64
+			left.Store(int64(n))
+			var wg sync.WaitGroup
+			failed := atomic.Bool{}
+			for g := 0; g < 4; g++ {
+				wg.Add(1)
+				go func() {
+					defer wg.Done()
+					for left.Add(-1) >= 0 {
+						ctx, cancel := context.WithTimeout(context.Background(), stepTimeout)
+						if _, err := c.Get(ctx); err != nil {
+							failed.Store(true)
+						}
+						cancel()
+					}
+				}()
+			}
+			wg.Wait()
+			b := c.Buffer()
+			a := make([]int, len(b))
+			for i, v := range b {
+				a[i] = v.(int)
+			}
+			r = "buf " + fmtInts(a)
+			if failed.Load() {
+				r = "get-failed " + fmtInts(a)
+			}
 		case "commit":
 			r = canonErr(c.Commit())
 		case "rollback":
@@ -213,6 +254,10 @@ func genChannel(r *rng.R, tier string, i int) []string {
 	var s []string
 	next := 1
 	for len(s) < n {
+		if r.Intn(25) == 0 {
+			s = append(s, fmt.Sprintf("pget %d", 8+r.Intn(24)))
+			continue
+		}
 		if r.Intn(12) == 0 {
 			// a Get left blocked while other goroutines use the Channel: make it block (drain what the model may hold by
 			// reading everything first is not needed — if something is available it simply returns a value)
